@@ -55,3 +55,34 @@ def still_present(fid: str) -> Any:
         return f"witness raised {type(e).__name__}: {e}"
     finally:
         logging.disable(logging.NOTSET)
+
+
+def _paths(src: str, detector_name: str):
+    import inspect
+    import tealer.detectors.all_detectors as all_det
+    from tealer.detectors.abstract_detector import AbstractDetector
+    from tealer.utils.command_line.common import init_tealer_from_single_contract
+    t = init_tealer_from_single_contract(src.strip(), "w")
+    for c in vars(all_det).values():
+        if inspect.isclass(c) and issubclass(c, AbstractDetector) and getattr(c, "NAME", "") == detector_name:
+            t.register_detector(c)
+    out = t.run_detectors()[0]
+    return [p for eo in out for p in eo.paths]
+
+
+def D4() -> bool:
+    # approves whenever Fee != 0; missing-fee-check must report a path
+    return not _paths("#pragma version 6\ncallsub f\nerr\nf:\ntxn Fee\nint 0\n==\nbnz out\nint 1\nreturn\nout:\nretsub\n", "missing-fee-check")
+
+
+def D13() -> bool:
+    src = ("#pragma version 4\nint 0\nstore 20\nloop:\nload 20\nint 2\n>=\nbnz loop_end\ngtxn 0 RekeyTo\nglobal ZeroAddress\n==\nassert\n"
+           "load 20\nint 1\n+\nstore 20\nb loop\nloop_end:\nint 1\nreturn\n")
+    return not _paths(src, "group-size-check")
+
+
+def D20() -> bool:
+    return not _paths("#pragma version 4\nb main\nf:\nretsub\nmain:\nint 1\ncallsub f\n", "rekey-to")
+
+
+WITNESS.update({k: v for k, v in list(globals().items()) if k in ("D4", "D13", "D20")})
